@@ -190,8 +190,7 @@ func ErrorAckStepCheck(m *PktModel, w *world.World, ev *StepEvent) []explore.Fin
 }
 
 // CheckC19: failed messages leave no trace; error acknowledgements leave no token effects.
-func CheckC19(tier string) int {
-	start := time.Now()
+func modelsC19(tier string) ([]*PktModel, []int) {
 	props := map[string]bool{"C19": true}
 	// ---- part 1 and 2: explored graphs with real-transaction probes and the error-ack oracle
 	nft := nft3("nft3-tx-probes", props, NftScenario{MaxUserTx: 2, Receivers: []int{1}, BadReceiver: true, Relays: true}, "tx")
@@ -216,9 +215,15 @@ func CheckC19(tier string) int {
 		nft.ProbeFilter = func(d int) bool { return d%2 == 0 }
 		mt.ProbeFilter = func(d int) bool { return d%2 == 0 }
 	}
+	return []*PktModel{nft, mt}, depth
+}
+
+func CheckC19(tier string) int {
+	start := time.Now()
+	models, depth := modelsC19(tier)
 	extra := faultEnumeration(tier)
 	fmt.Fprintf(os.Stderr, "[C19] fault enumeration done: %d findings (%.1fs)\n", len(extra), time.Since(start).Seconds())
-	return RunPktExtra("C19", tier, []*PktModel{nft, mt}, depth, tierBudget(tier, 110*time.Second, 15*time.Minute), append([]string{
+	return RunPktExtra("C19", tier, models, depth, tierBudget(tier, 110*time.Second, 15*time.Minute), append([]string{
 		"first sentence: every message of the adversarial probe menus (receive / acknowledgement variants of every known packet on every chain), every failing user transaction and every failing relayer step is delivered as a real signed transaction in its own block; if the result code is non-zero the tibc, NFT, MT, nft and mt stores must be byte-identical before and after",
 		"second sentence: for every delivered packet answered with an error acknowledgement (invalid receiver, relay-chain whitelist refusal, injected failures) the receiving chain's nft, mt and transfer stores are byte-identical and the tibc diff is exactly {receipt, acknowledgement, max-ack sequence}",
 		"fault enumeration (verif hook): for both token modules and both directions, the k-th token-module call inside OnRecvPacket fails, for every k up to the number of calls the callback makes; likewise inside the refund of an error acknowledgement and inside the send",
@@ -405,3 +410,7 @@ func faultEnumeration(tier string) []explore.Finding {
 }
 
 var _ = packettypes.Packet{}
+
+func init() {
+	PktRegistry["C19"] = func(tier string) []*PktModel { m, _ := modelsC19(tier); return m }
+}
